@@ -146,6 +146,18 @@ add("disallow_single_d3", (3,), [("t", I)], lambda d, t: {"disallow": ty(d, t)},
 add("type_schema_d3", (3,), [("t", I), ("n", I), ("a", I)],
     lambda d, t, n, a: {"type": [ty(d, t), {"type": "string", "maxLength": n}, {"type": "number", "minimum": a}]}, ANY, pre=lambda d, t, n, a: tyok(d, t) and n >= 0)
 
+# object members of every scalar kind (null, booleans, strings), not only integers
+add("properties_scalar_members", ALL, [("t", I), ("c", SC)],
+    lambda d, t, c: {"properties": {"a": {"type": ty(d, t)}, "b": {"enum": [c, 1]}}, "additionalProperties": {"type": "null"}},
+    ["obj_scalar"], pre=lambda d, t, c: tyok(d, t))
+add("patternProperties_scalar_members", ALL, [("t", I)],
+    lambda d, t: {"patternProperties": {"^a": {"type": ty(d, t)}, "b$": {"disallow": ["null"]} if d == 3 else {"not": {"type": "null"}}}},
+    ["obj_scalar"], pre=lambda d, t: tyok(d, t))
+add("items_scalar_members", ALL, [("t", I), ("c", SC)], lambda d, t, c: {"items": [{"type": ty(d, t)}, {"enum": [c]}], "additionalItems": {"type": "null"}},
+    ["arr_scalar"], pre=lambda d, t, c: tyok(d, t))
+add("dependencies_scalar_members", ALL, [("t", I)], lambda d, t: {"dependencies": {"a": ["b"], "b": {"properties": {"a": {"type": ty(d, t)}}}}},
+    ["obj_scalar"], pre=lambda d, t: tyok(d, t))
+
 # the empty schema {} in every subschema position (it is falsy in Python: a truthiness test instead of a type test changes its meaning)
 def _es(e, a):
     return {} if e else {"maximum": a}
@@ -348,7 +360,7 @@ SPLIT = {"obj_int": ["obj_int#01", "obj_int#2"], "arr_scalar": ["arr_scalar#01",
 
 
 def gen_conditions(module, factory, tier, seed, groups=("T1", "T2", "T3", "T4"), rate=None, rest=True, only=None, witness_rate=0.15,
-                   extra_params=None, tags_from_template=True, timeout_scale=1.0, pairs_quick=30, heavy_all_drafts=False, heavy_L=2, heavy_quick=True, t1_obj_small=False):
+                   extra_params=None, tags_from_template=True, timeout_scale=1.0, pairs_quick=30, heavy_all_drafts=False, heavy_L=2, heavy_quick=True, t1_obj_small=False, always=()):
     """Standard cube-and-conquer enumeration of the template table for one property.
     rate: per-group sampling probability in the quick tier (seeded)."""
     import random
@@ -376,7 +388,7 @@ def gen_conditions(module, factory, tier, seed, groups=("T1", "T2", "T3", "T4"),
             continue
         heavy_draft = rng.choice(list(t.drafts))
         for d in t.drafts:
-            if quick and rng.random() >= rate.get(t.group, 1.0) and t.group != "T3":
+            if quick and rng.random() >= rate.get(t.group, 1.0) and t.group != "T3" and t.name not in always:
                 continue
             if t.group == "T1":
                 for k in t.kinds:
